@@ -146,7 +146,7 @@ Proof. intros w x Hw. split; [exact (wrap_s_range w x Hw)|exact (wrap_s_id w x H
    Part 3 (last theorem): the linear-time clause, refuted for AMF0.
    ------------------------------------------------------------------------------------------ *)
 
-From Verif Require Proofs.Amf0 Proofs.RtmpChunk Proofs.RtmpPacket Proofs.FlvTotal Proofs.Aac Proofs.Avc Proofs.JsonPlusTotal Proofs.JoseFixed Proofs.JoseCipher Proofs.JoseWrap.
+From Verif Require Proofs.Amf0 Proofs.RtmpChunk Proofs.RtmpPacket Proofs.FlvTotal Proofs.FlvPack Proofs.Aac Proofs.Avc Proofs.JsonPlusTotal Proofs.JoseFixed Proofs.JoseCipher Proofs.JoseWrap Proofs.Amf0Cost.
 
 (* AMF0: Discovery + UnmarshalBinary of every value type, every nesting, every byte string (any fuel) *)
 Theorem c07_amf0_dec_total :
@@ -174,6 +174,16 @@ Proof. exact Verif.Proofs.RtmpPacket.unmarshal_total. Qed.
 Theorem c07_flv_demux_total :
     forall (fuel : nat) (s : Flv.stream) (x : N), FlvTotal.wf_stream s -> Flv.demux fuel s <> Panic x.
 Proof. exact Verif.Proofs.FlvTotal.flv_demux_total. Qed.
+
+(* FLV audio packager Decode *)
+Theorem c07_flv_audio_dec_total :
+    forall (bs : bytes) (x : N), wf_bytes bs -> Flv.audio_dec bs <> Panic x.
+Proof. exact Verif.Proofs.FlvPack.flv_audio_dec_total. Qed.
+
+(* FLV video packager Decode *)
+Theorem c07_flv_video_dec_total :
+    forall (bs : bytes) (x : N), wf_bytes bs -> Flv.video_dec bs <> Panic x.
+Proof. exact Verif.Proofs.FlvPack.flv_video_dec_total. Qed.
 
 (* ADTS Decode from every codec state *)
 Theorem c07_aac_adts_dec_total :
@@ -263,9 +273,14 @@ Theorem c07_flv_tags_return :
     (length (fst (Flv.flat s)) < fuel)%nat -> Flv.read_tags fuel s acc <> Err e.
 Proof. exact Verif.Proofs.FlvTotal.read_tags_fuel. Qed.
 
+(* LINEAR TIME IS REFUTED for AMF0 (known finding amf0-quadratic-nesting): for every slope k there is a well-formed byte string whose decoding cost -- method invocations, counting the Size() walk of the whole subtree that objectBase.unmarshal repeats after every decoded child -- exceeds k times its length (witness family 03 (00 01 61 03)^d (00 00 09)^(d+1), cost (d+1)^2 on 7d+4 bytes) *)
+Theorem c07_amf0_cost_refuted :
+    forall k : N, exists bs : bytes, wf_bytes bs /\ (Amf0Cost.cost_amf0 bs > k * lenN bs)%N.
+Proof. exact Verif.Proofs.Amf0Cost.amf0_cost_quadratic_refuted. Qed.
+
 (* Assumptions of EVERY theorem above, in one traversal: the tuple below mentions each of them, so the set
    printed is the union of their assumptions (one `Print Assumptions` per theorem costs 0.4 s each -- 20 s per
-   check run for this file -- and prints the same line 60 times). *)
+   check run for this file -- and prints the same line 63 times). *)
 Definition c07_all_theorems :=
   (c07_amf0_marker_String_total,
   (c07_amf0_Discovery_total,
@@ -311,6 +326,8 @@ Definition c07_all_theorems :=
   (c07_rtmp_decode_message_total,
   (c07_rtmp_unmarshal_total,
   (c07_flv_demux_total,
+  (c07_flv_audio_dec_total,
+  (c07_flv_video_dec_total,
   (c07_aac_adts_dec_total,
   (c07_aac_adts_stream_total,
   (c07_aac_asc_dec_total,
@@ -326,5 +343,6 @@ Definition c07_all_theorems :=
   (c07_jose_jwe_compact_parse_total,
   (c07_amf0_dec_returns,
   (c07_avc_sample_returns,
-  c07_flv_tags_return))))))))))))))))))))))))))))))))))))))))))))))))))))))))))).
+  (c07_flv_tags_return,
+  c07_amf0_cost_refuted)))))))))))))))))))))))))))))))))))))))))))))))))))))))))))))).
 Print Assumptions c07_all_theorems.
